@@ -215,7 +215,20 @@ func (s *Session) Topics() ([]string, []byte, error) {
 	return topics, qoss, nil
 }
 
-// ID returns the session ID.
+// Resumable reports whether the session holds state kept from a connection
+// with CleanSession=0. It is false for a session that has been created but not
+// initialized yet (another connection with the same client identifier may find
+// it in the store at that moment).
+func (s *Session) Resumable() bool {
+	s.mu.Lock()
+	defer s.mu.Unlock()
+
+	return s.initted && s.Cmsg != nil && !s.Cmsg.CleanSession()
+}
+
+// ID returns the session ID. It is the client identifier the session was
+// initialized with; Cmsg is not consulted, because Update replaces it (under
+// the mutex) when a later connection resumes the session.
 func (s *Session) ID() string {
-	return string(s.Cmsg.ClientID())
+	return s.id
 }
